@@ -218,8 +218,9 @@ def update_witness(prop, tier, out=print):
                 if k not in seen:
                     seen.add(k)
                     vecs.append(s_["inputs"])
-            step = max(1, len(vecs) // 40)
-            d[tier][h.name] = vecs[::step][:40]
+            cap = max(40, min(h.conformance, 120))  # harnesses that ask for many conformance replays keep as many witnesses
+            step = max(1, len(vecs) // cap)
+            d[tier][h.name] = vecs[::step][:cap]
             out("  witness corpus %s: %d vectors" % (h.name, len(d[tier][h.name])))
     os.makedirs(os.path.dirname(witness_path(prop)), exist_ok=True)
     json.dump(d, open(witness_path(prop), "w"), indent=0, sort_keys=True)
